@@ -589,6 +589,11 @@ def c17_cfg(tier, seed, emit=True, waitdelay=1, bound=3, spec="PSpec", props=())
                   spec=spec, emit=emit, extra=[f"PROPERTY {p}" for p in props])
 
 
+def c17_overlap_cfg(tier, pooled=False, emit=True, invs=("NonInterference", "OwnBuffer", "TypeOK", "Inv_Emit")):
+    calls = "{1, 2, 3, 4}" if tier == "thorough" and emit is False else "{1, 2, 3}"
+    return mc_cfg(list(invs), consts=["Calls = " + calls, f"Pooled = {'TRUE' if pooled else 'FALSE'}"], emit=emit)
+
+
 PLANS["C17"] = dict(
     level_text="Part A: the plugin process lifecycle (start, output buffered up to the cap per stream, exit, context expiry, kill, descendants "
                "holding the pipes, the host's bounded wait, return) is a timed state machine; TLC checks over all plugin plans that the buffers "
@@ -607,6 +612,15 @@ PLANS["C17"] = dict(
         dict(name="rows",
              gen=dict(module="MC_PluginProc_C17", cfg=c17_cfg, select=take_all),
              drive=dict(driver="pluginproc"),
+             validate=dict(module="Trace_PluginProc", cfg=cfg_lines("SPECIFICATION Spec", 'CONSTANT TraceFile = "trace.ndjson"', "CONSTANT Cap = 2", "CONSTANT Deadline = 2",
+                                                                    "CONSTANT WaitDelay = 1", "CONSTANT HoldFor = 6", "CONSTANT Bound = 3", "POSTCONDITION AllConsumed", "CHECK_DEADLOCK FALSE"))),
+        # Part C: several calls in flight at once (PluginOverlap.tla).  The design with buffers of its own per call keeps NonInterference,
+        # a design that pools the buffers and hands them back when Output returns must violate it; every complete history of starts and
+        # decodes (90 for three calls) is a schedule replayed against the real CLIPlugin, the caller's logger being the scheduler's gate
+        dict(name="mutant-pooled-buffers", mc=dict(module="PluginOverlap", cfg=lambda tier, seed: c17_overlap_cfg(tier, pooled=True, emit=False, invs=("NonInterference",)), expect_violation="NonInterference")),
+        dict(name="overlap",
+             gen=dict(module="PluginOverlap", cfg=lambda tier, seed: c17_overlap_cfg(tier), select=slicer(90)),
+             drive=dict(driver="pluginoverlap", race=True),
              validate=dict(module="Trace_PluginProc", cfg=cfg_lines("SPECIFICATION Spec", 'CONSTANT TraceFile = "trace.ndjson"', "CONSTANT Cap = 2", "CONSTANT Deadline = 2",
                                                                     "CONSTANT WaitDelay = 1", "CONSTANT HoldFor = 6", "CONSTANT Bound = 3", "POSTCONDITION AllConsumed", "CHECK_DEADLOCK FALSE"))),
     ],
